@@ -364,10 +364,37 @@ Symbol *env_get_var_visible_at(Environment *env, const char *name, int line, int
 }
 
 /* Set variable value */
+/* Do two values refer to the same heap object? (reading a variable yields its value without
+ * copying, so "set x x", or "let q = p" followed by "set p q", hand back the object that the
+ * variable already holds) */
+static bool value_shares_storage(Value a, Value b) {
+    if (a.type != b.type) return false;
+    if (a.type == VAL_STRING) return a.as.string_val && a.as.string_val == b.as.string_val;
+    if (a.type == VAL_STRUCT) return a.as.struct_val && a.as.struct_val == b.as.struct_val;
+    return false;
+}
+
 void env_set_var(Environment *env, const char *name, Value value) {
     Symbol *sym = env_get_var(env, name);
     if (sym) {
-        env_free_value(sym->value);
+        /* The old value is freed only when nothing else holds it: not the value being assigned
+         * (self-assignment) and, for objects that are not reference counted, no other variable.
+         * Freeing it regardless left the variable, or its alias, pointing at freed memory. */
+        bool still_held = value_shares_storage(sym->value, value);
+        bool counted = sym->value.type == VAL_STRING && gc_is_managed(sym->value.as.string_val);
+        if (!still_held && !counted) {
+            for (int i = 0; i < env->symbol_count; i++) {
+                if (&env->symbols[i] != sym && value_shares_storage(env->symbols[i].value, sym->value)) {
+                    still_held = true;
+                    break;
+                }
+            }
+        }
+        if (still_held) {
+            if (value_shares_storage(sym->value, value)) return;   /* set x x */
+        } else {
+            env_free_value(sym->value);
+        }
         sym->value = value;
 
         /* GC refcount fix: If the new string value is already referenced by
